@@ -303,6 +303,153 @@ def check_minmax_offsets(p, report, funcs, rule):
     return n
 
 
+class CandDep:
+    """Must-dependence of local values on the candidate set: a name carries the token when, on EVERY path to the
+    current point, its value was computed from `candidates` or from what `_transform_candidates` returned."""
+
+    def __init__(self, fnode, seeds, selection_ids=()):
+        from ..paths import MustAnalysis, describe
+        outer = self
+        self.sites = []   # (node, label, ok, path description)
+
+        loop_of_target = {id(L.target): L for L in ast.walk(fnode) if isinstance(L, (ast.For, ast.AsyncFor))}
+
+        def filled_in(L):
+            """arrays / lists filled element-wise inside L at positions or with values taken from the loop variable"""
+            tv = {n.id for n in ast.walk(L.target) if isinstance(n, ast.Name)}
+            out = set()
+            for m in ast.walk(L):
+                if isinstance(m, ast.Assign):
+                    for tg in m.targets:
+                        if isinstance(tg, ast.Subscript) and base_name(tg) and (names_in(tg.slice) | names_in(m.value)) & tv:
+                            out.add(base_name(tg))
+                elif isinstance(m, ast.Expr) and isinstance(m.value, ast.Call) and isinstance(m.value.func, ast.Attribute) \
+                        and m.value.func.attr in ("append", "extend") and names_in(m.value) & tv:
+                    b = base_name(m.value.func.value)
+                    if b:
+                        out.add(b)
+            return out
+
+        class A(MustAnalysis):
+            def stmt(self, s, states):
+                if isinstance(s, (ast.For, ast.AsyncFor)):
+                    # a container filled element by element in a loop OVER the candidates depends on them even when the
+                    # loop runs zero times (it then stays empty / all-NaN)
+                    from ..paths import St
+                    fl = filled_in(s)
+                    states = [St(x.facts, x.tokens | fl) if (names_in(s.iter) & x.tokens) else x for x in states]
+                return super().stmt(s, states)
+
+            def transfer(self, node, tokens):
+                t = set(tokens)
+                if isinstance(node, ast.Assign) and len(node.targets) == 1 and id(node.targets[0]) in loop_of_target \
+                        and isinstance(node.value, ast.Constant) and node.value.value is None:
+                    L_ = loop_of_target[id(node.targets[0])]
+                    d_ = bool(names_in(L_.iter) & t)
+                    for n_ in ast.walk(L_.target):
+                        if isinstance(n_, ast.Name):
+                            (t.add if d_ else t.discard)(n_.id)
+                    return frozenset(t)
+
+                def dep(e):
+                    return e is not None and bool(names_in(e) & t)
+
+                def bind(tg, d):
+                    if isinstance(tg, ast.Name):
+                        (t.add if d else t.discard)(tg.id)
+                    elif isinstance(tg, (ast.Tuple, ast.List)):
+                        for e in tg.elts:
+                            bind(e, d)
+                    elif isinstance(tg, ast.Starred):
+                        bind(tg.value, d)
+                    elif isinstance(tg, (ast.Subscript, ast.Attribute)):
+                        b = base_name(tg)
+                        if b and (d or (isinstance(tg, ast.Subscript) and dep(tg.slice))):
+                            t.add(b)
+                if isinstance(node, ast.Assign):
+                    v = node.value
+                    if isinstance(v, ast.Call) and isinstance(v.func, ast.Attribute) and v.func.attr == "_validate_data" \
+                            and len(node.targets) == 1 and isinstance(node.targets[0], (ast.Tuple, ast.List)):
+                        argn = {a.id for a in v.args if isinstance(a, ast.Name)} | {
+                            k.value.id for k in v.keywords if isinstance(k.value, ast.Name)}
+                        for e in node.targets[0].elts:
+                            if isinstance(e, ast.Name) and e.id not in argn:
+                                bind(e, dep(v))
+                    elif isinstance(v, (ast.Tuple, ast.List)) and len(node.targets) == 1 \
+                            and isinstance(node.targets[0], (ast.Tuple, ast.List)) and len(v.elts) == len(node.targets[0].elts):
+                        ds = [dep(e) for e in v.elts]
+                        for e, d in zip(node.targets[0].elts, ds):
+                            bind(e, d)
+                    else:
+                        d = dep(v)
+                        for tg in node.targets:
+                            bind(tg, d)
+                elif isinstance(node, ast.AugAssign):
+                    if dep(node.value):
+                        bind(node.target, True)
+                elif isinstance(node, ast.AnnAssign) and node.value is not None:
+                    bind(node.target, dep(node.value))
+                elif isinstance(node, ast.Expr) and isinstance(node.value, ast.Call) \
+                        and isinstance(node.value.func, ast.Attribute) and dep(node.value):
+                    b = base_name(node.value.func.value)
+                    if b:
+                        t.add(b)
+                elif isinstance(node, (ast.For, ast.comprehension)):
+                    bind(node.target, dep(node.iter))
+                return frozenset(t)
+
+            def use(self, expr, state, stmt):
+                for c in ast.walk(expr):
+                    if not isinstance(c, ast.Call):
+                        continue
+                    cn = c01.callname(c)
+                    op = None
+                    if cn == "simple_batch" and c.args:
+                        op = c.args[0]
+                    elif id(c) not in selection_ids:
+                        continue
+                    elif cn in ("rand_argmax", "rand_argmin", "argmax", "argmin", "nanargmax", "nanargmin") and c.args:
+                        op = c.args[0]
+                    elif cn == "choice":
+                        op = next((k.value for k in c.keywords if k.arg == "p"), None)
+                    if op is not None and names_in(op):
+                        outer.sites.append((c, ast.unparse(op)[:40], bool(names_in(op) & state.tokens),
+                                            describe(state.facts)))
+        self.a = A(fnode, init_tokens=seeds)
+        self.a.run()
+
+
+def check_candidate_dependence(p, report, rule):
+    """The utilities a pool query ranks have to be computed from the candidate set on every path: an array that does
+    not depend on `candidates` / `X_cand` / `mapping` at all gives numbers to (and selects) samples the caller
+    excluded."""
+    n = 0
+    funcs = c01.pool_functions(p)
+    facts = {id(f.node): c01.FnFacts(f) for f in funcs}
+    sel = {}
+    for rec in c01.loop_records(funcs, facts):
+        sel.setdefault(id(rec[0].node), set()).add(id(rec[3]))
+    for ci, f in c01.pool_query_entities(p):
+        if "candidates" not in f.all_param_names():
+            continue
+        cd = CandDep(f.node, {"candidates"}, sel.get(id(f.node), ()))
+        by = {}
+        for (c, lab, ok, path) in cd.sites:
+            k = id(c)
+            cur = by.get(k)
+            if cur is None or (cur[2] and not ok):
+                by[k] = (c, lab, ok, path)
+        for (c, lab, ok, path) in by.values():
+            n += 1
+            report.add(rule, f"{ci.name}.query", f"utilities `{lab}` ranked by {site_id(c, 50)} are computed from the candidate set",
+                       f"{f.file}:{c.lineno}", ok,
+                       detail="on every path the array derives from candidates / X_cand / mapping" if ok else
+                       f"on the path where {path or 'always'} the ranked array is computed without the candidate set (neither "
+                       f"`candidates` nor what _transform_candidates returned flows into it): samples the caller did not offer "
+                       f"get numbers and can be selected")
+    return n
+
+
 def run(p, report, tier):
     report.rule("R2.1", "within one iteration of a selection loop the NaN mask of the current pick is applied only "
                 "after the returned row was snapshotted (or to an array that is not returned), and masks of earlier "
@@ -347,6 +494,20 @@ def run(p, report, tier):
                 "bare one is NaN for every candidate set whose component is constant (duplicated candidates), and the "
                 "winner of an all-NaN row carries no number", floor=2)
     check_minmax_offsets(p, report, funcs, "R2.7")
+    report.rule("R2.9", "the array a pool query hands to simple_batch is computed from the candidate set on every path "
+                "(must-dependence on `candidates` / X_cand / mapping): numbers only at offered samples needs the "
+                "offer to enter the computation", floor=20)
+    check_candidate_dependence(p, report, "R2.9")
+    report.rule("R2.10", "the class probabilities the strategies turn into utilities without a further check are finite in "
+                "every row: ClassFrequencyEstimator.predict_proba treats rows of zero frequency separately instead of "
+                "dividing by the zero row sum (shared with C11 R11.2)", floor=1)
+    from ..common import Report as _Report
+    from . import c11 as _c11
+    _sub = _Report("C11")
+    _c11.run(p, _sub, "quick")
+    for o in _sub.obligations:
+        if o.rule == "R11.2" and "ClassFrequencyEstimator" in o.entity:
+            report.add("R2.10", o.entity, o.construct, o.loc, o.ok, detail=o.detail)
     report.rule("R2.8", "the wrapper strategies hand on the rows of the wrapped strategy with their NaN marks: columns are "
                 "copied whole, every return goes through the scatter into the NaN-filled array and simple_batch, -inf is "
                 "written before the subset's utilities (shared with C20 R20.1 / R20.2)", floor=20)
